@@ -435,3 +435,11 @@ pub fn run_replay<Q: QueueApi>(h: &History, stats: &mut Stats, journal: Option<&
     let (r, _, t) = run_history::<Q>(&h.ctor, |_, _, _, step| ops.get(step).cloned(), &mut cfg, stats);
     (r, t)
 }
+
+/// Run an explicit history with chosen monitor cadence (used by the bulk / capacity / hasher modes).
+pub fn run_explicit<Q: QueueApi>(h: &History, full_every: usize, sorted_every: usize, stats: &mut Stats, journal: Option<&mut dyn FnMut(&str)>) -> (Vec<Report>, Vec<Ret>) {
+    let mut cfg = EpisodeCfg { universe: h.universe, full_every, sorted_every, max_viols: 3, journal };
+    let ops = h.ops.clone();
+    let (r, _, t) = run_history::<Q>(&h.ctor, |_, _, _, step| ops.get(step).cloned(), &mut cfg, stats);
+    (r, t)
+}
